@@ -275,7 +275,15 @@ func runC06(c *fw.Ctx) {
 	for r := 0; r < c.Pick(6, 40); r++ {
 		c20Pool(c, 500+r)
 	}
+	// acknowledgements racing expiry sweeps: an identifier is released by exactly one of the two
+	var storms sync.WaitGroup
+	for i := 0; i < c.Pick(3, 12); i++ {
+		storms.Add(1)
+		go func(i int) { defer storms.Done(); c03AckStorm(c, 600+i) }(i)
+	}
 	c06Writer(c)
+	c06FanOut(c)
+	storms.Wait()
 	for r := 0; r < c.Pick(4, 30); r++ {
 		c06WriteFailure(c, r)
 	}
@@ -492,6 +500,159 @@ func c06Writer(c *fw.Ctx) {
 			c.Case(fmt.Sprintf("writer|%d", r), true)
 			c.Observe("writer_deliveries_seen", len(seenTags))
 			c.Observe("writer_publishes", total)
+		}()
+	}
+}
+
+// c06FanOut: one publish goes to several QoS 1 sessions of one node at once; each copy gets its
+// own identifier from the node-wide pool. Recipients acknowledge in arbitrary order. At no time
+// may two unacknowledged deliveries (of any sessions) carry the same identifier, and once
+// everything is acknowledged the whole range is free again.
+func c06FanOut(c *fw.Ctx) {
+	rounds := c.Pick(5, 50)
+	for r := 0; r < rounds; r++ {
+		rg := c.SubRng("c06/fanout", r)
+		fw.LogCase("C06 fan-out scenario %d", r)
+		cl := kit.NewCluster(kit.WorkDir("c06f"))
+		func() {
+			defer cl.Close()
+			n, err := cl.AddNode(kit.NodeOpts{ID: 1, PoolMin: 1, PoolMax: 24})
+			if err != nil {
+				c.Inconclusive("cannot start node: " + err.Error())
+				return
+			}
+			nSubs := 2 + rg.Intn(3)
+			subs := []*kit.Client{}
+			for i := 0; i < nSubs; i++ {
+				sc, err := n.MustConnect(kit.ConnectOpts{ClientID: fmt.Sprintf("fan%d", i), KeepAlive: 600, Clean: true})
+				if err != nil {
+					c.Inconclusive("connect: " + err.Error())
+					return
+				}
+				defer sc.Close()
+				sc.SetAutoAck(false)
+				if err := sc.Sub1("c06/f", 1); err != nil {
+					c.Inconclusive("subscribe: " + err.Error())
+					return
+				}
+				subs = append(subs, sc)
+			}
+			pub, err := n.MustConnect(kit.ConnectOpts{ClientID: "pub", KeepAlive: 600, Clean: true})
+			if err != nil {
+				c.Inconclusive("connect: " + err.Error())
+				return
+			}
+			defer pub.Close()
+			type held struct {
+				sub int
+				tag string
+			}
+			outstanding := map[int]held{} // identifier -> unacknowledged delivery, node-wide
+			ackedByUs := map[string]bool{}
+			processed := make([]int, nSubs)
+			history := []string{}
+			scan := func() bool {
+				for si, sc := range subs {
+					evs := sc.Events()
+					for ; processed[si] < len(evs); processed[si]++ {
+						p := evs[processed[si]].Pkt
+						if p.Type != kit.PUBLISH {
+							continue
+						}
+						tag := string(p.Payload)
+						if p.ID < 1 || p.ID > 24 {
+							c.Violation("writer:identifier-out-of-range", fmt.Sprintf("fan-out scenario %d: delivery %s carries identifier %d outside the configured range [1,24]", r, tag, p.ID), nil)
+							return false
+						}
+						if p.Dup && ackedByUs[fmt.Sprintf("%d|%d|%s", si, p.ID, tag)] {
+							continue // a retransmission that crossed our acknowledgement
+						}
+						if o, busy := outstanding[p.ID]; busy && (o.sub != si || o.tag != tag) {
+							c.Violation("writer:identifier-reused-while-outstanding", fmt.Sprintf("fan-out scenario %d (%d QoS 1 recipients; %v): identifier %d handed to the delivery of %s to recipient %d while the delivery of %s to recipient %d is still unacknowledged", r, nSubs, history, p.ID, tag, si, o.tag, o.sub),
+								map[string]interface{}{"scenario": r, "id": p.ID, "history": history})
+							return false
+						}
+						outstanding[p.ID] = held{si, tag}
+						c.Observe("fanout_deliveries_seen", 1)
+					}
+				}
+				return true
+			}
+			total := 0
+			for step := 0; step < 8; step++ {
+				k := 1 + rg.Intn(3)
+				if len(outstanding)+k*nSubs > 22 {
+					k = 0
+				}
+				for i := 0; i < k; i++ {
+					total++
+					if acked, _ := pub.Publish("c06/f", []byte(fmt.Sprintf("f%d-%d", r, total)), 1, false, kit.DefaultWait); !acked {
+						c.Inconclusive("publish not acknowledged")
+						return
+					}
+					history = append(history, fmt.Sprintf("publish f%d-%d", r, total))
+				}
+				// every recipient holds its copies (session barrier per recipient after the publisher's PUBACK
+				// is not enough: the writer works asynchronously; wait for the expected number of copies)
+				want := total
+				for si, sc := range subs {
+					if !waitCount(func() int {
+						k := 0
+						for _, p := range sc.Publishes() {
+							if !p.Dup {
+								k++
+							}
+						}
+						return k
+					}, want, 20*time.Second) {
+						c.Violation("writer:fan-out-copy-missing", fmt.Sprintf("fan-out scenario %d: recipient %d received fewer than %d first copies", r, si, want), nil)
+						return
+					}
+				}
+				if !scan() {
+					return
+				}
+				// acknowledge a random subset, recipients in random order
+				ids := []int{}
+				for id := range outstanding {
+					ids = append(ids, id)
+				}
+				sort.Ints(ids)
+				rg.Shuffle(len(ids), func(i, j int) { ids[i], ids[j] = ids[j], ids[i] })
+				for _, id := range ids {
+					if rg.Intn(2) == 0 {
+						h := outstanding[id]
+						subs[h.sub].Send(kit.EncPubAck(id))
+						ackedByUs[fmt.Sprintf("%d|%d|%s", h.sub, id, h.tag)] = true
+						history = append(history, fmt.Sprintf("recipient %d acks %d (%s)", h.sub, id, h.tag))
+						delete(outstanding, id)
+					}
+				}
+				for _, sc := range subs {
+					if ok, _ := sc.Ping(kit.DefaultWait); !ok {
+						c.Inconclusive("no PINGRESP from a fan-out recipient")
+						return
+					}
+				}
+			}
+			// acknowledge the rest, then the whole range must be free
+			for id, h := range outstanding {
+				subs[h.sub].Send(kit.EncPubAck(id))
+			}
+			for _, sc := range subs {
+				if ok, _ := sc.Ping(kit.DefaultWait); !ok {
+					c.Inconclusive("no PINGRESP from a fan-out recipient")
+					return
+				}
+			}
+			free := wasp.VerifPoolFree(wasp.VerifWriterPool(n.Writer))
+			if fs := c06FreeSet(free, 1, 24); fs == nil || len(fs) != 24 {
+				c.Violation("writer:identifiers-leaked-after-acknowledgement", fmt.Sprintf("fan-out scenario %d (%d QoS 1 recipients; %v): every delivery has been acknowledged, yet the pool's free intervals are %v instead of the whole range [1,24]", r, nSubs, history, free),
+					map[string]interface{}{"scenario": r, "history": history, "free_intervals": fmt.Sprint(free)})
+				return
+			}
+			c.Case(fmt.Sprintf("fanout|%d|%d", r, nSubs), true)
+			c.Observe("fanout_scenarios", 1)
 		}()
 	}
 }
